@@ -76,11 +76,19 @@ func (c *Ctx) ownRun() map[string]*simpleVerdict {
 		{"time.Duration 1500", mIface{t: durT, v: int64(1500)}, "TimeSpan", "AsTimeSpan", "1500"},
 		{"nil", mNil, "Null", "AsObject", "nil"},
 		{"another object", mIface{t: tokT, v: osym}, "Object", "AsObject", "obj"},
+		// lists are host values too: a declared but unfilled (nil) list and an empty one are lists of no elements
+		{"nil []*Variant", mIface{t: types.NewSlice(vt), v: mSlice{nil}}, "Array", "AsArray", "[]"},
+		{"empty []*Variant", mIface{t: types.NewSlice(vt), v: mSlice{[]mv{}}}, "Array", "AsArray", "[]"},
 	}
-	for _, hc := range cases {
+	fromObject := c.MustFunc(pkgVariants, "", "VariantFromObject")
+	for ci, hc := range append(append([]hostCase{}, cases...), cases...) {
 		m.steps = 0
-		v, out := m.Call(newVariant, hc.val)
-		where := "NewVariant(" + hc.name + ")"
+		ctor := newVariant
+		if ci >= len(cases) {
+			ctor = fromObject
+		}
+		v, out := m.Call(ctor, hc.val)
+		where := ctor.Name() + "(" + hc.name + ")"
 		noteSample("OWN.model/host-values", where)
 		if out.kind == "panic" {
 			note("host-values", where+" panics: "+out.why, "")
@@ -162,54 +170,95 @@ func (c *Ctx) ownRun() map[string]*simpleVerdict {
 				s += "nil"
 				continue
 			}
+			if _, isNil := e.(mNilT); isNil {
+				s += "nil"
+				continue
+			}
 			s += h.typeOf(e) + ":" + h.payloadOf(e)
 		}
 		return s + "]"
 	}
-	// an empty list that has spare capacity is a list like any other: the variant grows its own copy, the
-	// caller's later appends to its list stay invisible
-	for _, via := range []string{"VariantFromArray", "NewVariant", "SetAsArray", "SetAsObject"} {
-		m.steps = 0
-		backing := make([]mv, 0, 4)
-		list := mSlice{backing}
-		listIface := mIface{t: types.NewSlice(vt), v: list}
-		var v mv
-		var out mOutcome
-		switch via {
-		case "VariantFromArray":
-			v, out = m.Call(c.MustFunc(pkgVariants, "", "VariantFromArray"), list)
-		case "NewVariant":
-			v, out = m.Call(newVariant, listIface)
-		case "SetAsArray":
-			v, _ = m.Call(c.MustFunc(pkgVariants, "", "EmptyVariant"))
-			_, out = call(v, "SetAsArray", list)
-		case "SetAsObject":
-			v, _ = m.Call(c.MustFunc(pkgVariants, "", "EmptyVariant"))
-			_, out = call(v, "SetAsObject", listIface)
-		}
-		where := "a variant given an empty list with spare capacity through " + via
-		if out.kind == "panic" {
-			note("lists", where+" panics: "+out.why, "")
-			continue
-		}
-		if out.kind != "ok" {
-			note("lists", "", where+": "+out.why)
-			continue
-		}
-		if _, o := call(v, "SetByIndex", int64(0), mkInt(7)); o.kind != "ok" {
-			if o.kind == "panic" {
-				note("lists", where+": SetByIndex(0, 7) panics: "+o.why, "")
+	// a list of no elements - declared but unfilled (nil), empty, or empty with spare capacity - is a list like any
+	// other, through every entry point: the variant is an array of length 0, equals the array variant of the same
+	// list, grows its own copy, and the caller's later appends to its list stay invisible
+	for _, kind := range []string{"an empty list with spare capacity", "a nil list (declared, never filled)", "an empty list"} {
+		for _, via := range []string{"VariantFromArray", "NewVariant", "VariantFromObject", "SetAsArray", "SetAsObject"} {
+			m.steps = 0
+			var backing []mv
+			switch kind {
+			case "an empty list with spare capacity":
+				backing = make([]mv, 0, 4)
+			case "an empty list":
+				backing = []mv{}
 			}
-			continue
+			list := mSlice{backing}
+			listIface := mIface{t: types.NewSlice(vt), v: list}
+			var v mv
+			var out mOutcome
+			switch via {
+			case "VariantFromArray":
+				v, out = m.Call(c.MustFunc(pkgVariants, "", "VariantFromArray"), list)
+			case "NewVariant":
+				v, out = m.Call(newVariant, listIface)
+			case "VariantFromObject":
+				v, out = m.Call(fromObject, listIface)
+			case "SetAsArray":
+				v, _ = m.Call(c.MustFunc(pkgVariants, "", "EmptyVariant"))
+				_, out = call(v, "SetAsArray", list)
+			case "SetAsObject":
+				v, _ = m.Call(c.MustFunc(pkgVariants, "", "EmptyVariant"))
+				_, out = call(v, "SetAsObject", listIface)
+			}
+			where := "a variant given " + kind + " through " + via
+			if out.kind == "panic" {
+				note("lists", where+" panics: "+out.why, "")
+				continue
+			}
+			if out.kind != "ok" {
+				note("lists", "", where+": "+out.why)
+				continue
+			}
+			if tag := h.typeOf(v); tag != "Array" {
+				note("lists", fmt.Sprintf("%s has type %s; a list of elements - also one without elements - gives an Array", where, tag), "")
+				continue
+			}
+			if l, o := call(v, "Length"); o.kind == "panic" || (o.kind == "ok" && mRender(l) != "0") {
+				note("lists", fmt.Sprintf("%s reports length %s%s; the list has no elements", where, mRender(l), o.why), "")
+				continue
+			}
+			if ref, o := m.Call(c.MustFunc(pkgVariants, "", "VariantFromArray"), list); o.kind == "ok" {
+				e1, o1 := call(v, "Equals", ref)
+				e2, o2 := call(ref, "Equals", v)
+				if o1.kind == "panic" || o2.kind == "panic" {
+					note("lists", fmt.Sprintf("%s compared with VariantFromArray of the same list panics: %s%s", where, o1.why, o2.why), "")
+					continue
+				}
+				if b1, ok1 := e1.(bool); ok1 && o1.kind == "ok" {
+					if b2, ok2 := e2.(bool); ok2 && o2.kind == "ok" && !(b1 && b2) {
+						note("lists", fmt.Sprintf("%s equals VariantFromArray of the same list: %v / %v; both hold the same (empty) list", where, b1, b2), "")
+						continue
+					}
+				}
+			}
+			if _, o := call(v, "SetByIndex", int64(0), mkInt(7)); o.kind != "ok" {
+				if o.kind == "panic" {
+					note("lists", where+": SetByIndex(0, 7) panics: "+o.why+"; an indexed write past the end grows the array", "")
+				} else {
+					note("lists", "", where+": SetByIndex: "+o.why)
+				}
+				continue
+			}
+			// the caller appends to its own list (into the spare capacity it still owns)
+			if cap(backing) > 0 {
+				ext := backing[:1]
+				ext[0] = mkInt(9)
+			}
+			if got := elems(v); got != "[Integer:7]" {
+				note("lists", fmt.Sprintf("%s, then grown with SetByIndex(0, 7), holds %s after the caller appended 9 to its own list; it holds its own copy: [7]", where, got), "")
+				continue
+			}
+			note("lists", "", "")
 		}
-		// the caller appends to its own list (into the spare capacity it still owns)
-		ext := backing[:1]
-		ext[0] = mkInt(9)
-		if got := elems(v); got != "[Integer:7]" {
-			note("lists", fmt.Sprintf("%s, then grown with SetByIndex(0, 7), holds %s after the caller appended 9 to its own list: the variant lives in the caller's backing array", where, got), "")
-			continue
-		}
-		note("lists", "", "")
 	}
 	for _, via := range []string{"VariantFromArray", "NewVariant", "SetAsArray", "SetAsObject", "Assign-from-variant", "NewVariant-from-variant"} {
 		m.steps = 0
@@ -298,6 +347,24 @@ func (c *Ctx) ownRun() map[string]*simpleVerdict {
 			return v
 		}
 		nested, _ := m.Call(c.MustFunc(pkgVariants, "", "VariantFromArray"), mSlice{[]mv{arr(1, 2), mkInt(3)}})
+		// lists with empty (nil) slots in every position, alone, nested, and facing variants on the other side
+		// (n < 0 stands for an empty slot)
+		arrN := func(ns ...int64) mv {
+			var es []mv
+			for _, n := range ns {
+				if n < 0 {
+					es = append(es, mNil)
+				} else {
+					es = append(es, mkInt(n))
+				}
+			}
+			v, _ := m.Call(c.MustFunc(pkgVariants, "", "VariantFromArray"), mSlice{es})
+			return v
+		}
+		list := func(es ...mv) mv {
+			v, _ := m.Call(c.MustFunc(pkgVariants, "", "VariantFromArray"), mSlice{es})
+			return v
+		}
 		nan, _ := m.Call(c.MustFunc(pkgVariants, "", "VariantFromDouble"), math.NaN())
 		mapObj, _ := m.Call(newVariant, mIface{t: types.NewMap(types.Typ[types.String], types.Typ[types.Int]), v: &mMap{k: map[string]mv{}, v: map[string]mv{}}})
 		sliceObj, _ := m.Call(newVariant, mIface{t: types.NewSlice(types.Typ[types.Int]), v: mSlice{[]mv{int64(1)}}})
@@ -308,7 +375,11 @@ func (c *Ctx) ownRun() map[string]*simpleVerdict {
 			"Integer 1":                     mkInt(1), "Integer 2": mkInt(2), "Long 1": h.variant("Long", int64(1)), "String a": h.variant("String", lit("a")), "String ''": h.variant("String", lit("")),
 			"Null": h.variant("Null", nil), "Boolean true": h.variant("Boolean", true), "Double 1.5": h.variant("Double", float64(1.5)), "Double NaN": nan,
 			"Array [1 2]": arr(1, 2), "Array [1 3]": arr(1, 3), "Array []": arr(), "Array [[1 2] 3]": nested, "Object map": mapObj, "Object slice": sliceObj,
-			"TimeSpan 5": h.variant("TimeSpan", int64(5)),
+			"TimeSpan 5":  h.variant("TimeSpan", int64(5)),
+			"Array [nil]": arrN(-1), "Array [nil nil]": arrN(-1, -1), "Array [1 nil]": arrN(1, -1), "Array [nil 2]": arrN(-1, 2), "Array [nil 3]": arrN(-1, 3),
+			"Array [1 2 nil]": arrN(1, 2, -1), "Array [nil 1 2]": arrN(-1, 1, 2), "Array [1 nil 2]": arrN(1, -1, 2), "Array [1]": arr(1), "Array [1 2 3]": arr(1, 2, 3),
+			"Array [[1 nil] 3]": list(arrN(1, -1), mkInt(3)), "Array [[nil 2] 3]": list(arrN(-1, 2), mkInt(3)),
+			"Array [[1 2] nil]": list(arr(1, 2), mNil), "Array [[] nil]": list(arr(), mNil), "Array [[]]": list(arr()), "Array [[nil]]": list(arrN(-1)), "Array [[1 2]]": list(arr(1, 2)),
 		}
 	}
 	p1 := pool()
@@ -416,7 +487,17 @@ func (c *Ctx) ownRun() map[string]*simpleVerdict {
 			e2, w2 := boolOf(call(p2[b], "Equals", p1[a]))
 			switch {
 			case e1 == "panic" || e2 == "panic":
-				note("equality", fmt.Sprintf("Equals between %s and %s panics: %s%s", a, b, w1, w2), "")
+				dir := fmt.Sprintf("(%s).Equals(%s)", a, b)
+				if e1 != "panic" {
+					dir = fmt.Sprintf("(%s).Equals(%s)", b, a)
+				}
+				why := w1
+				if w1 != "" && w2 != "" && w1 != w2 {
+					why = w1 + " / the other way round: " + w2
+				} else if w1 == "" {
+					why = w2
+				}
+				note("equality", fmt.Sprintf("%s panics: %s; equality never fails (lists, also with empty slots, included)", dir, why), "")
 			case e1 == "opaque" || e2 == "opaque":
 				note("equality", "", fmt.Sprintf("Equals between %s and %s: %s%s", a, b, w1, w2))
 			case e1 == "sym" || e2 == "sym":
@@ -442,7 +523,7 @@ func (c *Ctx) ownRun() map[string]*simpleVerdict {
 
 func init() {
 	register(&Rule{ID: "OWN.model", Floor: 4,
-		Doc: "variants evaluated abstractly through NewVariant / VariantFrom* / SetAs* / Assign / Clone / Equals / SetByIndex against the value model: 16 host values of every supported Go type give the matching type and come back through the accessor, also when set on a variant that already holds any of the others; assigning a variant to itself changes nothing; lists given through six entry points are copied in and grow with nulls; clones of 16 kinds of variants equal their original (NaN excepted) and are independent; equality over all ordered pairs is symmetric, reflexive on equal values and never panics (lists, maps, slices, nil included)",
+		Doc: "variants evaluated abstractly through NewVariant / VariantFrom* / SetAs* / Assign / Clone / Equals / SetByIndex against the value model: 18 host values of every supported Go type (a nil and an empty list of variants included) give the matching type and come back through the accessor, through NewVariant and VariantFromObject, also when set on a variant that already holds any of the others; assigning a variant to itself changes nothing; lists given through six entry points are copied in and grow with nulls; a list without elements (nil, empty, empty with spare capacity) through five entry points is an array of length 0 that equals VariantFromArray of the same list and grows on its own; clones of 35 kinds of variants equal their original (NaN excepted) and are independent; equality over all ordered pairs is symmetric, true exactly on equal values and never panics (lists with empty slots in every position on either side, nested lists, lists of different lengths, maps, slices, nil included)",
 		Run: func(c *Ctx) []*Obligation {
 			o := newObl("OWN.model")
 			res := c.ownRun()
